@@ -276,6 +276,7 @@ func c01(r *core.Run) {
 			"the reader derives the trie geometry from boson.ChunkSize and the reference length, like the writer", "subtrieSection no longer computes branching as ChunkSize/refLen starting from branch size ChunkSize")
 	}
 	spanCodec(r, "C01.S1")
+	feederRules(r, "C01")
 }
 
 // spanCodec checks every binary.<order> Uint64/PutUint64 site of the file-format packages.
@@ -401,6 +402,7 @@ func c02(r *core.Run) {
 			"the unencrypted pipeline is built from 256 KiB chunks, 8192 references per intermediate chunk, 32-byte references", "the plain pipeline is not NewHashTrieWriter(262144, 8192, 32, …)")
 	}
 	spanCodec(r, "C02.S1")
+	feederRules(r, "C02")
 }
 
 func c03(r *core.Run) {
